@@ -534,7 +534,7 @@ def cases(tier):
     for fmt in fmts:
         primary = fmt == 'zip_pickle'
         for n in (1, 2, 3, 4):
-            for world in (0,) if quick or not primary else (0, 1):
+            for world in (0,):
                 plan = history_plan(tier, primary, n)
                 for mp in [None] + list(range(1, n + 1)):
                     seen = set()
